@@ -161,6 +161,162 @@ Proof.
   rewrite !rechunk_from by exact St. rewrite E. reflexivity.
 Qed.
 
+(* ------------------------------------------------------------------ *)
+(* NOT BEFORE THE LAST BYTE.  The theorems above say how many objects a COMPLETE stream completes; these say when: the
+   tokenizer hands a token upward only once its last byte has arrived, the framing counts an object only at its closing CLOSE,
+   so a call is delivered exactly when its last byte has arrived -- and the packets that carry the bytes of the model's `wire`
+   amount to exactly the Deliver steps of the calls they carry completely. *)
+
+Lemma ctok_step_no_skip b c' es n : ctok_step tt b <> TSkip unit token c' es n.
+Proof.
+  unfold ctok_step, tok_step, col_begin. destruct (scan_header 64 [] b) as [| |ds ty rest]; try discriminate.
+  destruct (ty =? tok_ERROR)%Z.
+  { destruct (SIZE_LIMIT <? le128 ds)%Z; [discriminate|]. destruct (lenZ rest <? le128 ds)%Z; discriminate. }
+  destruct (has_body ty).
+  - destruct (lenZ rest <? blen ty (le128 ds))%Z; [discriminate|]. destruct (col_finish _ _ _ _); discriminate.
+  - destruct (col_nobody _ _ _); discriminate.
+Qed.
+
+(* a proper prefix p of a stream that decodes cleanly into ts yields a proper prefix of ts: at least the last token is missing *)
+Lemma cloop_proper_prefix : forall fuel bs ts, decode_all fuel bs = (ts, EndClean) -> forallb no_err ts = true ->
+  forall p q f2, bs = p ++ q -> q <> [] -> (List.length p < f2)%nat ->
+  exists ts1 ts2, ts = ts1 ++ ts2 /\ ts2 <> [] /\ snd (cloop f2 tt p) = ts1.
+Proof.
+  induction fuel as [|f IH]; intros bs ts D NE p q f2 E Q L; [discriminate|]. cbn [decode_all] in D.
+  destruct bs as [|b0 bs']. { destruct p; [|discriminate]. destruct q; [contradiction Q; reflexivity|discriminate]. }
+  destruct (scan_token (b0 :: bs')) as [| |t rest] eqn:S; try discriminate.
+  destruct (interp t) as [tk|] eqn:I; [|discriminate].
+  destruct (decode_all f rest) as [ts' e] eqn:D'. inversion D; subst ts e; clear D.
+  cbn [forallb] in NE. apply andb_true_iff in NE as [N1 N2].
+  pose proof (tok_step_scan _ _ _ _ S I N1) as T. rewrite E in T.
+  destruct f2 as [|f2]; [lia|].
+  destruct p as [|p0 p'].
+  { exists [], (tk :: ts'). split; [reflexivity|]. split; [discriminate|]. reflexivity. }
+  unfold cloop. rewrite loop_cons. fold ctok_step. fold cloop.
+  destruct (ctok_step tt (p0 :: p')) as [|c' es n|c' es restp|es] eqn:Tp.
+  - exists [], (tk :: ts'). split; [reflexivity|]. split; [discriminate|]. reflexivity.
+  - exfalso. exact (ctok_step_no_skip _ _ _ _ Tp).
+  - pose proof (tok_step_app_cont _ _ _ _ _ _ _ _ _ (p0 :: p') q c' es restp Tp) as T2. fold ctok_step in T2.
+    rewrite T in T2. inversion T2; subst c' es rest.
+    pose proof (tok_step_cont_length _ _ _ _ _ _ _ _ _ _ _ _ _ Tp) as Lr.
+    destruct (IH (restp ++ q) ts' D' N2 restp q f2 eq_refl Q ltac:(cbn [List.length] in *; lia)) as (ts1 & ts2 & E1 & E2 & E3).
+    exists (tk :: ts1), ts2. split; [rewrite E1; reflexivity|]. split; [exact E2|].
+    destruct (cloop f2 tt restp) as [s1 es1]. cbn [snd] in *. rewrite E3. reflexivity.
+  - exfalso. pose proof (tok_step_app_dead _ _ _ _ _ _ _ _ _ (p0 :: p') q es Tp) as T2. fold ctok_step in T2.
+    rewrite T in T2. discriminate.
+Qed.
+
+Theorem tokens_before_last_byte cs p q ts : decode (p ++ q) = (ts, EndClean) -> forallb no_err ts = true -> q <> [] -> concat cs = p ->
+  exists ts1 ts2, ts = ts1 ++ ts2 /\ ts2 <> [] /\ tokens_of_chunks cs = ts1.
+Proof.
+  intros D NE Q C. unfold tokens_of_chunks, cfeed_all. rewrite feed_all_is_run, C.
+  unfold Recv.run, feed. cbn [Recv.init Recv.mk r_dead r_skip r_buf r_ctx]. cbn [Z.ltb andb Z.to_nat skipn app].
+  fold cloop. unfold decode in D.
+  apply (cloop_proper_prefix _ _ _ D NE p q (S (List.length p)) eq_refl Q). lia.
+Qed.
+
+Lemma encode_stream_app a : forall b x y, encode_stream a = Ok x -> encode_stream b = Ok y -> encode_stream (a ++ b) = Ok (x ++ y).
+Proof.
+  induction a as [|t a IH]; intros b x y Ea Eb; cbn [app encode_stream] in *.
+  - inversion Ea; subst x. exact Eb.
+  - unfold bind in *. destruct (encode_token t []) as [bt|]; [|discriminate].
+    destruct (encode_stream a) as [ba|] eqn:E; [|discriminate]. inversion Ea; subst x.
+    rewrite (IH b ba y eq_refl Eb). rewrite app_assoc. reflexivity.
+Qed.
+
+(* what has been tokenized of a stream that starts with the complete bytes bs1: the tokens of bs1, then more *)
+Lemma tokens_after_complete cs bs1 p ts1 : decode bs1 = (ts1, EndClean) -> forallb no_err ts1 = true -> concat cs = bs1 ++ p ->
+  exists more, tokens_of_chunks cs = ts1 ++ more.
+Proof.
+  intros D NE C.
+  assert (E : tokens_of_chunks cs = tokens_of_chunks ([bs1] ++ [p])).
+  { unfold tokens_of_chunks, cfeed_all. rewrite (chunk_independent _ _ _ _ _ _ _ _ tt cs ([bs1] ++ [p])); [reflexivity|].
+    cbn [app concat]. rewrite app_nil_r. exact C. }
+  rewrite E. destruct (tokens_prefix [bs1] [p]) as [more ->]. exists more. f_equal.
+  apply chunks_decode; [cbn [concat]; rewrite app_nil_r; exact D | exact NE].
+Qed.
+
+(* strict framing: the object is complete at the LAST token of its serialization and at no earlier one *)
+Definition framed_strict (ts : list token) : Prop :=
+  framed ts /\ forall ts1 ts2, ts = ts1 ++ ts2 -> ts2 <> [] -> forall n o, f_done (fscan (fmk 0 n o) ts1) = n.
+
+(* the bytes of `calls`, complete, followed by the bytes of call c cut into p ++ q, of which p has arrived -- in any packets:
+   c is delivered iff q = [], i.e. exactly when its last byte has arrived; the calls before it are, c's successors are not *)
+Theorem delivered_exactly_at_last_byte {A} (ser : A -> list token) (calls : list A) (c : A) bs1 p q cs :
+  (forall c, framed_strict (ser c)) ->
+  forallb wf_token (concat (map ser (calls ++ [c]))) = true -> forallb no_err (concat (map ser (calls ++ [c]))) = true ->
+  encode_stream (concat (map ser calls)) = Ok bs1 -> encode_stream (ser c) = Ok (p ++ q) -> concat cs = bs1 ++ p ->
+  completed cs = match q with [] => S (List.length calls) | _ => List.length calls end.
+Proof.
+  intros F W NE E1 Ec C.
+  assert (Eall : encode_stream (concat (map ser (calls ++ [c]))) = Ok (bs1 ++ p ++ q)).
+  { rewrite map_app, concat_app. cbn [map concat]. rewrite app_nil_r. apply encode_stream_app; assumption. }
+  destruct q as [|q0 q'].
+  - rewrite app_nil_r in *.
+    rewrite (one_deliver_per_call ser (calls ++ [c]) (bs1 ++ p) cs (fun x => proj1 (F x)) W NE Eall C).
+    rewrite app_length. cbn [List.length]. lia.
+  - pose proof (stream_roundtrip _ _ W Eall) as D.
+    assert (Q : q0 :: q' <> []) by discriminate.
+    destruct (tokens_before_last_byte cs (bs1 ++ p) (q0 :: q') _ ltac:(rewrite <- app_assoc; exact D) NE Q C) as (ts1 & ts2 & T1 & T2 & T3).
+    rewrite map_app, concat_app, forallb_app in W, NE. cbn [map concat] in W, NE. rewrite app_nil_r in W, NE.
+    apply andb_true_iff in W as [W1 W2]. apply andb_true_iff in NE as [NE1 NE2].
+    destruct (tokens_after_complete cs bs1 p _ (stream_roundtrip _ _ W1 E1) NE1 C) as [more M].
+    subst ts1. rewrite map_app, concat_app in T1. cbn [map concat] in T1. rewrite app_nil_r, M, <- app_assoc in T1.
+    apply app_inv_head in T1.
+    unfold completed. rewrite M, fscan_app.
+    destruct (fscan_framed_calls ser (fun x => proj1 (F x)) calls 0 0) as [o' H]. unfold finit. rewrite H. cbn [Nat.add].
+    exact (proj2 (F c) more ts2 T1 T2 (List.length calls) o').
+Qed.
+
+(* ---- the same about the MODEL's wire: Deliver steps take the calls off the wire in order ... *)
+Lemma deliver_wire s : lost s = false -> cut s = None ->
+  wire (deliver s) = tl (wire s) /\ lost (deliver s) = false /\ cut (deliver s) = None.
+Proof.
+  intros L C. unfold deliver. rewrite L. unfold in_flight, cut_pred. rewrite C. cbn [negb].
+  destruct (wire s) as [|c w] eqn:Ew; [rewrite Ew; auto|]. destruct (cfate c); cbn [wire lost cut tl]; auto.
+Qed.
+
+Lemma delivers_wire k : forall s, lost s = false -> cut s = None ->
+  wire (delivers k s) = skipn k (wire s) /\ lost (delivers k s) = false /\ cut (delivers k s) = None.
+Proof.
+  unfold delivers. induction k as [|k IH]; intros s L C; cbn [repeat fold_left skipn]; [auto|].
+  cbn [step]. destruct (deliver_wire s L C) as (H1 & H2 & H3). destruct (IH (deliver s) H2 H3) as (I1 & I2 & I3).
+  rewrite I1, H1. split; [|auto]. destruct (wire s); cbn [tl]; [apply skipn_nil|reflexivity].
+Qed.
+
+(* ... and the packets that carry the bytes of the wire -- the calls `calls` completely, then p of call c's p ++ q -- are, on the
+   whole state, exactly the Deliver steps of the calls whose last byte they carry: those leave the wire, c stays unless q = [].
+   (The receiver is between two top-level objects when the first of these bytes arrives.) *)
+Theorem wire_bytes_are_delivers (ser : call -> list token) b calls c later bs1 p q cs :
+  (forall c, framed_strict (ser c)) ->
+  b_recv b = Recv.init tt -> f_depth (b_frame b) = 0 ->
+  lost (b_model b) = false -> cut (b_model b) = None -> wire (b_model b) = calls ++ c :: later ->
+  forallb wf_token (concat (map ser (calls ++ [c]))) = true -> forallb no_err (concat (map ser (calls ++ [c]))) = true ->
+  encode_stream (concat (map ser calls)) = Ok bs1 -> encode_stream (ser c) = Ok (p ++ q) -> concat cs = bs1 ++ p ->
+  let b' := fold_left bstep (map BChunk cs) b in
+  let k := match q with [] => S (List.length calls) | _ => List.length calls end in
+  b_model b' = delivers k (b_model b) /\
+  wire (b_model b') = match q with [] => later | _ => c :: later end.
+Proof.
+  intros F R0 D0 L C Wi W NE E1 Ec Cc b' k.
+  assert (St : cstable (b_recv b)) by (rewrite R0; apply init_stable).
+  assert (K : completed cs = k) by (apply (delivered_exactly_at_last_byte ser calls c bs1 p q cs F W NE E1 Ec Cc)).
+  assert (M : b_model b' = delivers k (b_model b)).
+  { subst b'. rewrite (rechunk_from cs b St). cbn [bstep]. rewrite R0.
+    unfold completed, tokens_of_chunks, cfeed_all in K. rewrite feed_all_is_run in K. unfold Recv.run in K. fold cfeed in K.
+    destruct (cfeed (Recv.init tt) (concat cs)) as [r' toks]. cbn [snd] in K. cbn [b_model].
+    destruct (b_frame b) as [d n o]. cbn [f_depth] in D0. subst d. cbn [f_done].
+    assert (Sh : forall ts n o, f_done (fscan (fmk 0 n o) ts) = n + f_done (fscan finit ts) /\
+                               f_depth (fscan (fmk 0 n o) ts) = f_depth (fscan finit ts)).
+    { clear. intros ts. induction ts as [|t ts IH] using rev_ind; intros n o; [cbn; split; lia|].
+      rewrite !fscan_app. cbn [fscan fold_left]. destruct (IH n o) as [I1 I2].
+      destruct (fscan (fmk 0 n o) ts) as [d1 n1 o1], (fscan finit ts) as [d2 n2 o2]. cbn [f_done f_depth] in *. subst d2 n1.
+      destruct t; cbn [fstep f_done f_depth]; try (split; lia). destruct d1 as [|[|d]]; cbn [f_done f_depth]; split; lia. }
+    rewrite (proj1 (Sh toks n o)), K. f_equal. lia. }
+  split; [exact M|]. rewrite M. destruct (delivers_wire k (b_model b) L C) as [Hw _]. rewrite Hw, Wi. subst k.
+  destruct q; clear; induction calls as [|x r IH]; cbn [List.length app skipn]; auto.
+Qed.
+
 (* ---- non-vacuity *)
 Lemma ser_call_framed k : framed (ser_call k).
 Proof. intros n o. eexists. reflexivity. Qed.
@@ -176,3 +332,32 @@ Example three_calls_bytewise :
   | Exc _ => False
   end.
 Proof. vm_compute. repeat split; reflexivity. Qed.
+
+Lemma ser_call_framed_strict k : framed_strict (ser_call k).
+Proof.
+  split; [apply ser_call_framed|]. intros ts1 ts2 E Q n o. unfold ser_call in E.
+  repeat (destruct ts1 as [|? ts1]; [reflexivity|cbn [app] in E; injection E as <- E]).
+  destruct ts1; [|discriminate E]. cbn [app] in E. subst ts2. contradiction Q; reflexivity.
+Qed.
+
+(* the bytes of calls 0 and 1 and all but the last byte of call 2: two Delivers, in any packets; the last byte brings the third;
+   inside call 0 (its OPEN has long arrived): none *)
+Example not_before_the_last_byte :
+  match encode_stream (concat (map ser_call [0; 1; 2])) with
+  | Ok bs =>
+    completed [removelast bs] = 2 /\ completed (map (fun b => [b]) (removelast bs)) = 2 /\ completed [removelast bs; [last bs 0%Z]] = 3 /\
+    completed [firstn 20 bs] = 0 /\ completed [firstn 1 bs] = 0
+  | Exc _ => False
+  end.
+Proof. vm_compute. repeat split; reflexivity. Qed.
+
+(* and on the model: two calls on the wire, their bytes arrive without the very last one: call 0 leaves the wire, call 1 stays *)
+Example wire_bytes_example :
+  let s := run [Issue 0 FPlain; Issue 0 FPlain] in
+  match encode_stream (concat (map (fun c => ser_call (cid c)) (wire s))) with
+  | Ok bs =>
+    ids (wire (b_model (fold_left bstep (map BChunk [firstn 9 bs; skipn 9 (removelast bs)]) (bmk s (Recv.init tt) finit)))) = [1] /\
+    ids (wire (b_model (fold_left bstep (map BChunk [firstn 9 bs; skipn 9 bs]) (bmk s (Recv.init tt) finit)))) = []
+  | Exc _ => False
+  end.
+Proof. vm_compute. split; reflexivity. Qed.
